@@ -35,7 +35,7 @@ LEVEL = "model_checking"
 ENGINE = "E2-BFS"
 SHARDS = {"quick": 8, "thorough": 16}
 RULE = (
-    "every history of length <= D over a 25-event menu of call outcomes on one fresh real connection per history, "
+    "every history of length <= D over a 35-event menu of call outcomes on one fresh real connection per history, "
     "probe echo(n) after each event; non-trivial = history whose last event is not the plain ok-unary; distinct = "
     "(transport, history)"
 )
@@ -53,6 +53,53 @@ class LogBoom(Exception):
     pass
 
 
+from typing import Protocol  # noqa: E402
+
+from vgi_rpc.rpc import Stream  # noqa: E402
+
+
+class SvcV1(prog.ScriptSvc, Protocol):
+    """The script service with a declared protocol version (server and ordinary client)."""
+
+    protocol_version = "1.0.0"
+
+
+class SvcV2(prog.ScriptSvc, Protocol):
+    """A client built against another major version: every call is refused by the version gate."""
+
+    protocol_version = "2.0.0"
+
+
+class SvcBadParams(Protocol):
+    """A client whose idea of the stream methods' parameters differs: the server rejects the request."""
+
+    protocol_version = "1.0.0"
+
+    def produce(self, script: int) -> Stream[prog.ScriptProducer]:
+        """Producer with a wrongly typed parameter."""
+        ...
+
+    def exch(self, script: int) -> Stream[prog.ScriptExchange]:
+        """Exchange with a wrongly typed parameter."""
+        ...
+
+    def unary(self, script: int, x: int) -> int:
+        """Unary with a wrongly typed parameter."""
+        ...
+
+
+# events run through a *different* client proxy on the same transport
+ALT = {
+    "version-unary": (SvcV2, "unary"),
+    "version-produce": (SvcV2, "produce"),
+    "version-produce-hdr": (SvcV2, "produce_h"),
+    "version-exch": (SvcV2, "exch"),
+    "badparam-unary": (SvcBadParams, "unary"),
+    "badparam-produce": (SvcBadParams, "produce"),
+    "badparam-exch": (SvcBadParams, "exch"),
+}
+
+
 STEPS3 = [[["emit", 1, None]], [["log", "INFO", "s1"], ["emit", 2, {"m": "v"}]], [["emit", 1, None], ["finish"]]]
 
 
@@ -62,6 +109,10 @@ def ev_calls() -> dict[str, Any]:
         "ok": C("unary", {"acts": [["log", "INFO", "a"], ["ret", 3]]}),
         "raise": C("unary", {"acts": [["log", "WARN", "w"], ["raise", "ValueError", "bad"]]}),
         "init-raise": C("produce", {"init": [["raise", "BoomError", "i"]]}),
+        # the client never ticks: it closes / cancels the session it was handed
+        "init-raise-close0": C("produce", {"init": [["raise", "BoomError", "i"]]}, consume=["take", 0, "close"]),
+        "init-raise-cancel0": C("produce", {"init": [["raise", "BoomError", "i"]]}, consume=["take", 0, "cancel"]),
+        "xinit-raise": C("exch", {"init": [["raise", "BoomError", "xi"]]}, inputs=[[1]]),
         "hdr-none": C("produce_h", {"hdr": "none", "steps": STEPS3}),
         "non-stream": C("produce", {"bad_return": True}),
         "prod-err0": C("produce", {"steps": [[["raise", "RuntimeError", "p0"]]]}),
@@ -80,6 +131,7 @@ def ev_calls() -> dict[str, Any]:
 
 
 RAW = ["unknown-method", "bad-version", "param-type", "param-null"]
+PV = {b"vgi_rpc.protocol_version": b"1.0.0"}
 LOGRAISE = {
     "onlog-unary": prog.Call("unary", {"acts": [["log", "INFO", "a"], ["log", "INFO", "b"], ["ret", 1]]}),
     "onlog-init": prog.Call("produce_h", {"hdr": 2, "init": [["log", "INFO", "i"]], "steps": STEPS3}),
@@ -94,7 +146,39 @@ LOGRAISE = {
 
 
 def menu(ctx: Ctx) -> list[str]:
-    return list(ev_calls()) + RAW + list(LOGRAISE)
+    return list(ev_calls()) + RAW + list(LOGRAISE) + list(ALT)
+
+
+def do_alt(conn: Conn, name: str, trace: list[Any]) -> str | None:
+    """A call through a client proxy whose Protocol the server refuses (version gate / parameter contract).
+
+    The client behaves as any client of that method kind does: for a stream it ticks / exchanges once and then
+    closes.  The call must fail with an RpcError (the refusal); nothing else is asserted about it."""
+    import json as _json
+
+    from vgi_rpc.rpc import RpcError
+    from vgi_rpc.rpc._client import _RpcProxy
+
+    proto, method = ALT[name]
+    proxy = _RpcProxy(proto, conn.ct, conn.on_log)
+    script: Any = _json.dumps({"steps": STEPS3}) if proto is SvcV2 else 5
+    try:
+        if method == "unary":
+            proxy.unary(script=script, x=1)
+            return "refused call succeeded"
+        sess = getattr(proxy, method)(script=script)
+        try:
+            if method.startswith("produce"):
+                next(iter(sess))
+            else:
+                sess.exchange(prog.input_batch([1]))
+            return "refused stream delivered a batch"
+        finally:
+            sess.close()
+    except RpcError:
+        return None
+    except StopIteration:
+        return "refused stream ended without an error"
 
 
 def do_raw(conn: Conn, name: str) -> dict[str, Any]:
@@ -102,13 +186,15 @@ def do_raw(conn: Conn, name: str) -> dict[str, Any]:
 
     w, r = conn.ct.writer, conn.ct.reader
     if name == "unknown-method":
-        data = raw.frame_request("no_such_method", {"x": [1]})
+        data = raw.frame_request("no_such_method", {"x": [1]}, metadata=PV)
     elif name == "bad-version":
-        data = raw.frame_request("echo", {"n": [1]}, request_version=b"999")
+        data = raw.frame_request("echo", {"n": [1]}, request_version=b"999", metadata=PV)
     elif name == "param-type":
-        data = raw.frame_request("echo", {"n": ["str"]})
+        data = raw.frame_request("echo", {"n": ["str"]}, metadata=PV)
     else:
-        data = raw.frame_request("echo", pa.RecordBatch.from_pydict({"n": [None]}, schema=pa.schema([pa.field("n", pa.int64())])))
+        data = raw.frame_request(
+            "echo", pa.RecordBatch.from_pydict({"n": [None]}, schema=pa.schema([pa.field("n", pa.int64())])), metadata=PV
+        )
     w.write(data)
     w.flush()
     return raw.classify(raw.read_stream(r))
@@ -127,7 +213,7 @@ def run_history(kind: str, hist: tuple[str, ...]) -> list[dict[str, Any]]:
         trace.append(prog.log_event(m))
 
     out: list[dict[str, Any]] = []
-    with Conn(kind, on_log=on_log) as conn:
+    with Conn(kind, on_log=on_log, protocol=SvcV1, worker_module="vf.kit.c04_worker") as conn:
         for pos, ev in enumerate(hist):
             rec: dict[str, Any] = {"ev": ev, "own": None, "probe": None}
             out.append(rec)
@@ -137,6 +223,12 @@ def run_history(kind: str, hist: tuple[str, ...]) -> list[dict[str, Any]]:
                 if ev in calls:
                     prog.run_call(conn.proxy, calls[ev], trace)
                     rec["own"] = prog.trace_matches(prog.expected(calls[ev]), trace)
+                    if ev in ("init-raise-close0", "init-raise-cancel0"):
+                        # a client that closes / cancels without ever ticking never reads the init error
+                        # of a headerless stream; what it observes is not specified -- only the probe is judged
+                        rec["own"] = None
+                elif ev in ALT:
+                    rec["own"] = do_alt(conn, ev, trace)
                 elif ev in RAW:
                     res = do_raw(conn, ev)
                     rec["own"] = None if res["error"] is not None and not res["data"] else f"raw request {ev} answered {res}"
